@@ -225,4 +225,15 @@ __CPROVER_ensures(__CPROVER_old(v->_size) + count <= g_cap0 ==> KEEPS(v))
 //@  __CPROVER_loop_invariant((g_j >= @l1:index@ && g_j < @l4:i_2@) ==> self->_data[g_j] == *@p3:value@)
 //@  __CPROVER_decreases(@l1:index@ + @p2:count@ - @l4:i_2@)
 //@end
+/* assign(n) (= clear(); resize(n)): the result is n value-initialised elements whatever the vector held; storage is reused when the
+ * capacity suffices (no allocation, same block, constructed prefix kept) */
+void Vec_assign__u64(Vec_t *v, unsigned long n)
+__CPROVER_requires(SHAPE(v) && n < CAP_MAX && g_allocs == 0 && (g_k >= v->_constructed_size || g_old_k == v->_data[g_k]) && (g_k2 >= v->_constructed_size || g_old_k2 == v->_data[g_k2]))
+__CPROVER_assigns(v->_data, v->_capacity, v->_size, v->_constructed_size, g_new, g_allocs, g_alloc_n, __CPROVER_object_whole(g_data))
+__CPROVER_ensures(v->_size == n && VINV(v) && v->_capacity >= g_cap0)
+__CPROVER_ensures(g_k < n ==> v->_data[g_k] == 0)
+__CPROVER_ensures(n <= g_cap0 ==> KEEPS(v))
+__CPROVER_ensures(n > g_cap0 ==> (g_allocs == 1 && v->_data == g_new))
+__CPROVER_ensures(v->_constructed_size == MAXU(__CPROVER_old(v->_constructed_size), n))
+;
 #endif
